@@ -52,3 +52,20 @@ package output
 //@ loop #1
 //@   invariant [sorted_copies] sortedExpectedOutputDefinitions == sortedOf(expectedOutputDefinitions) && sortedLoadedOutputDefinitions == sortedOf(loadedOutputDefinitions) && len(expectedOutputDefinitions) == len(loadedOutputDefinitions)
 //@   invariant [equal_so_far] forall i int :: {sortedOf(expectedOutputDefinitions)[i]} 0 <= i && i <= rangeindex ==> sortedOf(expectedOutputDefinitions)[i] == sortedOf(loadedOutputDefinitions)[i]
+
+// C16/C01: declared outputs are parsed the same way for every loader: "x" is the file x; "type::id" needs a known type and
+// splits at the first "::".
+//@ func ParseOutput(outputStr) (o, err)
+//@   pure
+//@   requires [known_handler_types] len(handlers.KnownHandlerTypes) == 3 && handlers.KnownHandlerTypes[0] == "file" && handlers.KnownHandlerTypes[1] == "dir" && handlers.KnownHandlerTypes[2] == "docker"
+//@   ensures [plain_is_file] !contains(outputStr, "::") ==> err == nil && o.Type == "file" && o.Identifier == outputStr
+//@   ensures [typed] contains(outputStr, "::") && err == nil ==> o.Type == sub(outputStr, 0, idx(outputStr, "::")) && o.Identifier == sub(outputStr, idx(outputStr, "::") + 2, len(outputStr)) &&
+//@        (o.Type == "file" || o.Type == "dir" || o.Type == "docker")
+//@   ensures [unknown_type_rejected] contains(outputStr, "::") && !(sub(outputStr, 0, idx(outputStr, "::")) == "file" || sub(outputStr, 0, idx(outputStr, "::")) == "dir" || sub(outputStr, 0, idx(outputStr, "::")) == "docker") ==> err != nil
+
+//@ func ParseOutputs(outputs) (r, err)
+//@   pure
+//@   requires [known_handler_types] len(handlers.KnownHandlerTypes) == 3 && handlers.KnownHandlerTypes[0] == "file" && handlers.KnownHandlerTypes[1] == "dir" && handlers.KnownHandlerTypes[2] == "docker"
+//@   ensures [one_per_declaration] err == nil ==> len(r) == len(outputs)
+//@ loop #1
+//@   invariant [so_far] len(parsedOutputs) == rangeindex + 1
